@@ -271,6 +271,7 @@ RULES = [
     ("C20-R3", "regex hygiene of the hg / docker translators", r3),
     ("C20-R4", "filter verdicts, negation, comments, syntax directive", r4),
     ("C11-R2", "ignore option words (git/hg/dock, no*) and their effects [shared with C11]", lambda ctx: __import__("c11").r2(ctx)),
+    ("C20-R5", "the repository of a root is found by upward search (Repository::discover)", lambda ctx: __import__("extra2").repository_discovered_upwards(ctx)),
 ]
 
 EXPLANATION = (
